@@ -215,6 +215,11 @@ def random_operator(rng, n):
     for _ in range(nterms):
         c = rng.choice([1.0, -1.0, 0.5, 1j, complex(rng.uniform(-2, 2), rng.uniform(-2, 2))])
         terms.append((c, random_conserving_product(rng, n)))
+    if nterms >= 2 and rng.random() < 0.2:
+        # coefficients many orders of magnitude apart (a large penalty term next to terms of order one): the small
+        # terms are part of the operator all the same
+        k = rng.randrange(nterms)
+        terms[k] = (terms[k][0] * rng.choice([4e8, 1e10, 3e11]), terms[k][1])
     return terms
 
 
@@ -344,7 +349,7 @@ def check_operators(res, rng, name, mapping, n, cand, img, sign_fn, ctx, reps):
             want[img[m1]] = amp * sign_fn(m1) * sign_fn(m2)
         keys = set(got) | set(want)
         err = max([abs(got.get(k, 0) - want.get(k, 0)) for k in keys] or [0.0])
-        if err > 1e-8:
+        if err > 1e-8 + 1e-14 * max(abs(c) for c, _ in terms):
             res.fail(f"sweep:{name}:matrix_element",
                      f"column of mapped operator on map(occ2) differs from the Fock-space column (max err {err:.3g}): "
                      f"got {got}, want {want}", inp)
